@@ -560,7 +560,7 @@ def ign_moment_shape(records: bool):
                 ops.append(o)
 
             # 1. different earliest slots for the wires of the ignored moment
-            depths = list(draw(st.permutations([0, 1, 2, 3])))[:k]
+            depths = list(draw(st.permutations([0, 1, 2])))[:k]
             for w, d in zip(ign_w, depths):
                 for _ in range(d):
                     add("g", draw(one_q), [w])
@@ -614,12 +614,12 @@ def _either(*shapes):
 
 # rows that re-schedule / merge around operations carrying an ignored tag
 _IGN_ROWS = {
-    "stratified_circuit": 6, "align_left": 5, "align_right": 5, "synchronize_terminal_measurements": 5,
-    "merge_operations": 4, "merge_operations_to_circuit_op": 4, "merge_k_qubit_unitaries": 4, "merge_k_qubit_unitaries_to_circuit_op": 4,
-    "merge_moments": 3, "merge_moments_batch": 3, "merge_single_qubit_gates_to_phxz": 3, "merge_single_qubit_gates_to_phased_x_and_z": 3,
-    "merge_single_qubit_moments_to_phxz": 3, "map_operations": 2, "map_operations_and_unroll": 2, "drop_diagonal_before_measurement": 2,
-    "eject_z": 0, "eject_phased_paulis": 0, "IdleMomentsGauge": 3, "CPhaseGaugeTransformerMM": 2, "expand_composite": 2,
-    "drop_negligible_operations": 2,
+    "stratified_circuit": 6, "align_left": 3, "align_right": 3, "synchronize_terminal_measurements": 3,
+    "merge_operations": 3, "merge_operations_to_circuit_op": 3, "merge_k_qubit_unitaries": 2, "merge_k_qubit_unitaries_to_circuit_op": 2,
+    "merge_moments": 2, "merge_moments_batch": 2, "merge_single_qubit_gates_to_phxz": 2, "merge_single_qubit_gates_to_phased_x_and_z": 1,
+    "merge_single_qubit_moments_to_phxz": 2, "map_operations": 1, "map_operations_and_unroll": 1, "drop_diagonal_before_measurement": 1,
+    "eject_z": 0, "eject_phased_paulis": 0, "IdleMomentsGauge": 2, "CPhaseGaugeTransformerMM": 1, "expand_composite": 1,
+    "drop_negligible_operations": 1,
 }
 for _name, _p in _IGN_ROWS.items():
     _row = ROWS[_name]
@@ -631,6 +631,6 @@ for _name, _p in _IGN_ROWS.items():
         if _cfg.tail is None:
             _cfg.tail, _cfg.tail_p = _shape, _p
         else:
-            _cfg.tail = _either(_cfg.tail, _cfg.tail, _shape)  # keep the row's own shape twice as likely
+            _cfg.tail = _either(_cfg.tail, _cfg.tail, _cfg.tail, _shape)  # keep the row's own shape three times as likely
 ROWS["stratified_circuit"].ign_p = 5
 ROWS["stratified_circuit"].weight = 4
